@@ -90,7 +90,7 @@ CHECK = {
                  "P3R.C11.hornerSingle_iff", "P3R.C11.lane_zero_sel", "P3R.C11.send_accepts_every_row", "P3R.C11.send_value_is_main_cell", "P3R.C11.sep_out_zero", "P3R.C11.extMulBinomial_eval_D2",
                  "P3R.C11.extMulBinomial_eval_D4", "P3R.C11.extMulBinomial_eval_D5", "P3R.C11.extMulBinomial_eval_D8", "P3R.C11.extMulQuintic_eval", "P3R.C11.packed2_iff", "P3R.C11.packed3_iff",
                  # every arity: the `while s < kk` legs of the model (packedLegs, D = 1) accept exactly chains of single steps
-                 "P3R.C11.packedLegs_one_succ", "P3R.C11.packedLegs_sound", "P3R.C11.packedLegs_complete",
+                 "P3R.C11.packedLegs_one_succ", "P3R.C11.packedLegs_sound", "P3R.C11.packedLegs_complete", "P3R.C11.packed_row_sound",
                  # the Horner schedule (model of compute_schedule, tied to the real AluAir every run): packing preserves the bus
                  "P3R.C11.packed_net", "P3R.C11.sched_net", "P3R.C11.computeSchedule_tested", "P3R.C11.splitChains_cover",
                  "P3R.C11.computeSchedule_cover", "P3R.C11.schedule_preserves_bus"],
